@@ -171,6 +171,22 @@ func (p *Prop[C]) Run(t *testing.T) {
 func (p *Prop[C]) RunFuzz(f *testing.F) {
 	st := evid.New(p.ID, p.Sub+"-fuzz", p.Rule)
 	f.Cleanup(func() { _ = st.Write() })
+	// rapid decodes the fuzz input as its bitstream: seed the corpus with inputs long enough to build whole cases
+	// (without them the mutator starts from inputs that run out of bits at the first draws)
+	for seed := uint64(1); seed <= 12; seed++ {
+		buf := make([]byte, 4096)
+		x := seed * 0x9E3779B97F4A7C15
+		for i := range buf {
+			x ^= x << 13
+			x ^= x >> 7
+			x ^= x << 17
+			buf[i] = byte(x >> 32)
+			if seed%3 == 0 && i%5 != 0 {
+				buf[i] &= 0x0f // small draws: small definitions, short command lines
+			}
+		}
+		f.Add(buf)
+	}
 	f.Fuzz(rapid.MakeFuzz(func(rt *rapid.T) {
 		c := p.Gen(rt)
 		if err := p.safeCheck(c, st); err != nil {
